@@ -63,7 +63,22 @@ impl Ctx {
     fn gen(&mut self) -> Gen {
         let (r, c) = self.sess.screen().map_or((1, 1), |s| s.size());
         let seed = self.rng.next();
-        Gen::new(Rng(seed | 1), u64::from(r), u64::from(c))
+        let mut g = Gen::new(Rng(seed | 1), u64::from(r), u64::from(c));
+        if let Some(s) = self.sess.screen() {
+            if s.scrollback() == 0 {
+                'outer: for row in 0..r.min(12) {
+                    for col in 0..c.min(40) {
+                        if s.cell(row, col).is_some_and(vt100::Cell::is_wide) {
+                            g.wide_at.push((u64::from(row), u64::from(col)));
+                            if g.wide_at.len() >= 12 {
+                                break 'outer;
+                            }
+                        }
+                    }
+                }
+            }
+        }
+        g
     }
 }
 
@@ -107,12 +122,12 @@ fn recipe_for(prop: &str) -> Recipe {
     match prop {
         "C05" => Recipe {
             setup: MOVE_SETUP,
-            focus: &[(Kind::Text, 10), (Kind::TextMargin, 10), (Kind::Zero, 5)],
+            focus: &[(Kind::Text, 10), (Kind::TextMargin, 10), (Kind::Zero, 5), (Kind::WideEdit, 5)],
             ..base
         },
         "C06" => Recipe { setup: MOVE_SETUP, focus: &[(Kind::Move, 10), (Kind::Region, 4)], ..base },
-        "C07" => Recipe { setup: MOVE_SETUP, focus: &[(Kind::Erase, 1)], ..base },
-        "C08" => Recipe { setup: MOVE_SETUP, focus: &[(Kind::Shift, 1)], ..base },
+        "C07" => Recipe { setup: MOVE_SETUP, focus: &[(Kind::Erase, 4), (Kind::WideEdit, 1)], ..base },
+        "C08" => Recipe { setup: MOVE_SETUP, focus: &[(Kind::Shift, 4), (Kind::WideEdit, 1)], ..base },
         "C09" => Recipe { setup: &[(Kind::Sgr, 5), (Kind::Text, 2), (Kind::SaveRestore, 1)], focus: &[(Kind::Sgr, 1)], ..base },
         "C10" => Recipe { setup: &[(Kind::Mode, 5), (Kind::Text, 1)], focus: &[(Kind::Mode, 1)], ..base },
         "C11" => Recipe {
@@ -381,8 +396,32 @@ fn run_oracle(ctx: &mut Ctx, dirty: &mut Option<Vec<u8>>, chain: &mut Option<(vt
     }
 }
 
+/// deterministic templates run before the random cases
+fn templates(ctx: &mut Ctx) {
+    match ctx.prop.as_str() {
+        "C18" | "C03" | "C13" => {
+            // every C1 control character as UTF-8: unsplit, and split between its two bytes
+            for x in 0x80u8..=0x9f {
+                ctx.case_start = ctx.sess.ops.len();
+                ctx.sess.new_case(2, 4, 0, "none", "template");
+                ctx.sess.checked(&format!("P 61c2{x:02x}62"), "C1");
+                ctx.sess.checked("D", "D:C1");
+                ctx.sess.checked("E", "E:C1");
+                ctx.case_start = ctx.sess.ops.len();
+                ctx.sess.new_case(2, 4, 0, "none", "template");
+                ctx.sess.checked("P 61c2", "C1");
+                ctx.sess.checked(&format!("P {x:02x}62"), "C1");
+                ctx.sess.checked("D", "D:C1");
+                ctx.sess.checked("E", "E:C1");
+            }
+        }
+        _ => {}
+    }
+}
+
 fn run_generic(ctx: &mut Ctx, n_cases: u64) {
     let rec = recipe_for(&ctx.prop.clone());
+    templates(ctx);
     for _ in 0..n_cases {
         let (_rows, _cols, sb) = ctx.new_case(rec.cb, u8::from(rec.sb));
         let mut dirty: Option<Vec<u8>> = None;
@@ -420,10 +459,27 @@ fn run_generic(ctx: &mut Ctx, n_cases: u64) {
             }
             // focus step
             let mut g = ctx.gen();
+            if !rec.sync_each && rec.placement && g.rng.chance(1, 4) {
+                let bytes = g.placement();
+                ctx.sess.process_checked(&bytes, "Placement");
+            }
             let k = g.pick_kind(rec.focus);
             let bytes = g.chunk(k);
             let tag = kind_tag(k);
-            ctx.sess.process_checked(&bytes, &tag);
+            if bytes.len() >= 2 && g.rng.chance(1, 4) {
+                // the same bytes in two or more process() calls
+                if g.rng.chance(1, 3) {
+                    for b in &bytes {
+                        ctx.sess.process_checked(&[*b], &tag);
+                    }
+                } else {
+                    let cut = g.rng.range(1, bytes.len() as u64 - 1) as usize;
+                    ctx.sess.process_checked(&bytes[..cut], &tag);
+                    ctx.sess.process_checked(&bytes[cut..], &tag);
+                }
+            } else {
+                ctx.sess.process_checked(&bytes, &tag);
+            }
             ctx.sess.checked("D", &format!("D:{tag}"));
             ctx.sess.checked("E", &format!("E:{tag}"));
             if !rec.sync_each {
